@@ -796,6 +796,10 @@ def oracle_C19(L, K, lines, steps, spec):
             ok = [m for m in steps[i]["markers"] if m.startswith("THREADS")]
             if not ok or ok[0].split()[2] != "1":
                 v.append("step %d: threads running the const catalogue disagree or did not finish: %r" % (i, ok))
+    # "never interfere even when the vectors were copied from one another": a copy is made
+    # through the value types' own copy constructors (bytes that were merely duplicated would
+    # share whatever the values own) - the construction events of the copying steps (C06)
+    v += oracle_C06(L, K, lines, steps, spec)
     return v[:5]
 
 
